@@ -7,7 +7,7 @@ S=/var/tmp/scr/try_$$
 mkdir -p /var/tmp/scr && rm -rf $S && git -C /repo worktree add -q --detach $S HEAD || exit 9
 ( cd $S && git apply "$P" ) || { echo "patch does not apply"; git -C /repo worktree remove --force $S; exit 9; }
 for prop in "$@"; do
-  cd /verif && PYVC_REPO=$S timeout 1200 ./check $prop > /tmp/try_seed_$prop.log 2>&1; code=$?
+  cd /verif && PYVC_REPO=$S PYVC_OUT=$S/out PYVC_SELFTEST_CHILD=1 timeout 1200 ./check $prop > /tmp/try_seed_$prop.log 2>&1; code=$?
   echo "== $prop exit=$code"; grep -E "^VIOLATION|^  failed|^  bounded|^UNDEC|^OUT-OF|^C[0-9]+:" /tmp/try_seed_$prop.log | sed 's/#[0-9]*//' | sort | uniq -c | cut -c1-260 | head -8
 done
 git -C /repo worktree remove --force $S
